@@ -295,18 +295,22 @@ def gen(rng, n, tier):
         r = rng.random()
         if r < 0.77:
             mode = "guard" if r < 0.62 else ("juxt" if r < 0.72 else "raw")
-            d = rng.weighted([(6, 0), (14, 1), (25, 2), (25, 3), (18, 4), (12, maxd)])
-            e = gen_expr(rng, d)
-            st = gen_style(rng, e, True, mode)
-            c = {"k": "render", "e": e, "st": st, "lead": gen_ws(rng, 0.8), "trail": gen_ws(rng, 0.8)}
-            jt, qk = juxt_top(e, st), quoting_ok(e, st)
-            if (not jt and not qk) or (mode == "juxt" and jt) or (mode == "raw" and qk):
-                continue  # exactly one kind of deviation per case, and the intended one
-            s = c["lead"] + render(e, st, 0) + c["trail"]
-            if len(s.encode()) > 300 or nest(e, st, 0) > maxnest:
-                continue
-            rendered.append(s)
-            out.append(c)
+            for _ in range(40):
+                d = rng.weighted([(6, 0), (14, 1), (25, 2), (25, 3), (18, 4), (12, maxd)])
+                if mode != "guard" and d == 0:
+                    d = 2
+                e = gen_expr(rng, d)
+                st = gen_style(rng, e, True, mode)
+                c = {"k": "render", "e": e, "st": st, "lead": gen_ws(rng, 0.8), "trail": gen_ws(rng, 0.8)}
+                jt, qk = juxt_top(e, st), quoting_ok(e, st)
+                if (not jt and not qk) or (mode == "juxt" and jt) or (mode == "raw" and qk):
+                    continue  # exactly one kind of deviation per case, and the intended one
+                s = c["lead"] + render(e, st, 0) + c["trail"]
+                if len(s.encode()) > 300 or nest(e, st, 0) > maxnest:
+                    continue
+                rendered.append(s)
+                out.append(c)
+                break
         elif r < 0.93 or not rendered:
             s = "".join(rng.choice(SOUP) + (" " if rng.chance(0.35) else "") for _ in range(rng.randint(1, 9)))
             if nest_str(s) > maxnest:
@@ -661,6 +665,8 @@ def oracle(case, obs):
         # inside the fragment of C42_partial.  One family is repaired by fixes/C42-unary-wordend.diff:
         if j[0] == "rejected" and re.search(r"~[A-Za-z0-9]+[)&|!(~'\"]", re.sub(r"'(?:[^'\\]|\\.)*'|\"(?:[^\"\\]|\\.)*\"", "Q", s)):
             return [{"key": "code-before-punctuation-rejected", "what": f"parse({s!r}) {j[1]}"}]
+        if j[0] in ("meaning", "verdict") and "\t" in s:  # repaired by fixes/C42-keep-tabs.diff
+            return [{"key": "tab-in-quoted-argument-expanded", "what": f"parse({s!r}) {j[1]}"}]
         return [{"key": "fragment-" + j[0], "what": f"parse({s!r}) {j[1]}"}]
     rp = obs["repaired"]
     j2 = _judge(rp["err"], rp["equiv"], rp["verdicts"], obs["expected"])
